@@ -433,33 +433,22 @@ class StridedInterval:
         :return: a list of (lower_bound, upper_bound) tuples
         """
 
-        nsplit = self._nsplit()
-        if len(nsplit) == 1:
-            lb = nsplit[0].lower_bound
-            ub = nsplit[0].upper_bound
-
-            lb = self._unsigned_to_signed(lb, self.bits)
-            ub = self._unsigned_to_signed(ub, self.bits)
-
-            return [(lb, ub)]
-
-        if len(nsplit) == 2:
-            # nsplit[0] is on the left hemisphere, and nsplit[1] is on the right hemisphere
-
-            # The left one
-            lb_1 = nsplit[0].lower_bound
-            ub_1 = nsplit[0].upper_bound
-
-            # The right one
-            lb_2 = nsplit[1].lower_bound
-            ub_2 = nsplit[1].upper_bound
-            # Then convert them to negative numbers
-            lb_2 = self._unsigned_to_signed(lb_2, self.bits)
-            ub_2 = self._unsigned_to_signed(ub_2, self.bits)
-
-            return [(lb_1, ub_1), (lb_2, ub_2)]
-
-        raise ClaripyVSAError("WTF")
+        # Split at the south pole first: _nsplit is only right for an interval that does not wrap around 2**bits.
+        # When the upper bound is not a member, the second piece of a split begins beyond it and holds no member.
+        bounds = []
+        for piece in self._ssplit():
+            if piece.lower_bound > piece.upper_bound:
+                continue
+            for half in piece._nsplit():
+                if half.lower_bound > half.upper_bound:
+                    continue
+                bounds.append(
+                    (
+                        self._unsigned_to_signed(half.lower_bound, self.bits),
+                        self._unsigned_to_signed(half.upper_bound, self.bits),
+                    )
+                )
+        return bounds
 
     def _unsigned_bounds(self) -> list[tuple[int, int]]:
         """
